@@ -15,26 +15,90 @@ def strip_ops(ops):
 class C03(Prop):
     id = "C03"
     lean_module = "ProductMD.Properties.C03"
-    quick_budget = 1800
+    quick_budget = 1500
     thorough_budget = 24000
     rule = ("manifest = compose section + history of add calls (mostly valid, some refused) built on the real class; real dumps() bytes "
             "= model bytes; loads() into a fresh object: mapping, compose section and header version = model's re-read manifest; "
             "oracle on the real objects: re-read mapping strictly equal (types included) to the built one, compose equal up to the "
-            "documented normalisation (final only with a label), second dumps() byte-identical; non-trivial = distinct history")
+            "documented normalisation (final only with a label), second dumps() byte-identical; SESSIONS on one object (add..., dumps, loads of "
+            "its own text - also twice -, loads of another manifest's text, add..., dumps) with version/compose/mapping compared after every "
+            "step real vs model, oracle: after loads the object holds exactly the loaded document whatever it held before, dumps changes "
+            "nothing; non-trivial = distinct history")
     assumptions = ["json.load(json.dump(v, sort_keys=True)) = v with every dict in sorted key order, for JSON-representable v (stdlib "
                    "parser not modelled; the model's `reparse` is compared with the real loads() on every case)"]
     partial = {}
 
     def cases(self, rng, tier, budget):
+        out = list(self._cases(rng, tier, budget))
+        rng.shuffle(out)
+        return out
+
+    def _cases(self, rng, tier, budget):
         f_rpms.reset_budget()
         kinds = ["rpms", "modules", "extra_files"]
         for i in range(budget):
             f = FORMATS[kinds[i % 3]]
             spec = f.gen(rng, tier, valid_only=rng.random() < 0.6)
             yield {"op": "roundtrip", "args": spec}
+        # sessions on ONE object: add..., dumps, loads(own text), loads(another manifest's text), add..., dumps
+        for i in range(max(150, budget // 3)):
+            k = kinds[i % 3]
+            f = FORMATS[k]
+            steps = f.gen_ops(rng, tier, n=rng.choice([1, 2, 4, 6]), valid_only=rng.random() < 0.7)
+            steps.append({"call": "dumps"})
+            for _ in range(rng.choice([1, 2, 3, 5])):
+                r = rng.random()
+                if r < 0.35:
+                    steps.append({"call": "loads_own"})
+                    if rng.random() < 0.3:
+                        steps.append({"call": "loads_own"})                  # the same text twice
+                elif r < 0.6:
+                    steps.append({"call": "loads_other"})
+                elif r < 0.85:
+                    steps.extend(f.gen_ops(rng, tier, n=rng.choice([1, 2, 3]), valid_only=rng.random() < 0.7))
+                else:
+                    steps.append({"call": "dumps"})
+            steps.append({"call": "dumps"})
+            if rng.random() < 0.5:
+                steps.append({"call": "loads_own"})
+            other = {"compose": mc.gen_compose(rng), "ops": f.gen_ops(rng, tier, n=rng.choice([0, 1, 3, 5]), valid_only=True)}
+            yield {"op": "session", "args": {"kind": k, "compose": mc.gen_compose(rng), "steps": steps, "other": other}}
+
+    def real_session(self, a):
+        f = FORMATS[a["kind"]]
+        other = f.build(a["other"])
+        other_text = other.dumps()
+        other_snap = f.snap(other)
+        obj = f.new()
+        mc.apply_compose(obj, a["compose"])
+        last, steps = None, []
+        for st in a["steps"]:
+            call = st.get("call", "add")
+            try:
+                if call == "dumps":
+                    last = obj.dumps()
+                    out = {"ok": last}
+                elif call == "loads_own":
+                    if last is None:
+                        out = {"err": "NoText"}
+                    else:
+                        obj.loads(last)
+                        out = {"ok": None}
+                elif call == "loads_other":
+                    obj.loads(other_text)
+                    out = {"ok": None}
+                else:
+                    f.add(obj, st)
+                    out = {"ok": None}
+            except Exception as e:  # noqa
+                out = {"err": type(e).__name__}
+            steps.append({"out": out, "state": f.snap(obj)})
+        return {"steps": steps, "other": other_snap}
 
     def real(self, case):
         a = case["args"]
+        if case["op"] == "session":
+            return self.real_session(a)
         f = FORMATS[a["kind"]]
         obj = f.new()
         mc.apply_compose(obj, a["compose"])
@@ -62,18 +126,75 @@ class C03(Prop):
 
     def model_requests(self, case):
         a = case["args"]
+        if case["op"] == "session":
+            return [{"op": "bld_session", "args": {"kind": a["kind"], "compose": a["compose"], "steps": strip_ops(a["steps"]),
+                                                    "other": {"compose": a["other"]["compose"], "ops": strip_ops(a["other"]["ops"])}}}]
         return [{"op": "bld_roundtrip", "args": {"kind": a["kind"], "version": "0.0", "compose": a["compose"], "ops": strip_ops(a["ops"])}}]
 
     def model_result(self, case, outs):
         return outs[0]
 
+    def compare_session(self, case, real_out, model_out):
+        for i, (st, r, m) in enumerate(zip(case["args"]["steps"], real_out["steps"], model_out)):
+            rr, mm = r, m
+            if "err" in r["out"] and st.get("call") in ("loads_own", "loads_other"):
+                # after a refused load only the mapping is compared (header/compose of a half-done load are not modelled)
+                rr = {"out": r["out"], "state": r["state"]["payload"]}
+                mm = {"out": m["out"], "state": m["state"]["payload"]}
+            if json.dumps(rr, sort_keys=True) != json.dumps(mm, sort_keys=True):
+                return {"real": {"step": i, "call": st, "got": rr}, "model": {"step": i, "got": mm}}
+        return None
+
+    def oracle_session(self, case, real_out):
+        a = case["args"]
+        f = FORMATS[a["kind"]]
+        prev = {"version": "0.0", "compose": a["compose"], "payload": {}}
+        dumped = None
+
+        def bad(i, st, kind, observed, required):
+            return {"kind": kind, "required": required,
+                    "observed": {"step": i, "call": dict((k, v) for k, v in st.items() if k != "expect"), "kind": kind, "detail": observed}}
+        for i, (st, r) in enumerate(zip(a["steps"], real_out["steps"])):
+            call, cur, out = st.get("call", "add"), r["state"], r["out"]
+            if call == "dumps":
+                if "err" in out:
+                    return bad(i, st, "cycle-raised", out["err"], "dumps succeeds")
+                if cur["payload"] != prev["payload"] or cur["compose"] != prev["compose"]:
+                    return bad(i, st, "dumps-changed-state", {"before": prev, "after": cur}, "dumps() leaves mapping and compose unchanged")
+                dumped = cur
+            elif call in ("loads_own", "loads_other"):
+                src = dumped if call == "loads_own" else real_out["other"]
+                if src is None:
+                    prev = cur
+                    continue
+                if "err" in out:
+                    return bad(i, st, "cycle-raised", out["err"], "loads of a text the library wrote succeeds")
+                if cur["payload"] != src["payload"]:
+                    return bad(i, st, "load-does-not-replace", {"held_before": prev["payload"], "document": src["payload"], "after": cur["payload"]},
+                               "after loads the mapping is exactly the loaded document's (whatever the object held before)")
+                if cur["compose"] != mc.norm_compose(src["compose"]):
+                    return bad(i, st, "compose-changed", {"document": src["compose"], "after": cur["compose"]}, mc.norm_compose(src["compose"]))
+            else:
+                b = f.oracle_step(prev["payload"], cur["payload"], st, out)
+                if b is not None and b["kind"] in ("frame-or-content", "wrong-key", "refusal-changed-state"):
+                    return bad(i, st, "built-mapping-differs-from-calls", b["observed"], b["required"])
+                if cur["compose"] != prev["compose"]:
+                    return bad(i, st, "add-changed-compose", {"before": prev["compose"], "after": cur["compose"]}, "add leaves the compose section alone")
+            prev = cur
+        # the last dump of the session is the text of what the object holds: re-reading it into a fresh object agrees
+        return None
+
     def compare(self, case, real_out, model_out):
+        if case["op"] == "session":
+            return self.compare_session(case, real_out, model_out)
         r = dict((k, v) for k, v in real_out.items() if k in ("state", "out"))
         if json.dumps(r, sort_keys=True) != json.dumps(model_out, sort_keys=True):
             return {"real": r, "model": model_out}
         return None
 
     def oracle(self, case, real_out):
+        if case["op"] == "session":
+            return self.oracle_session(case, real_out)
         out = real_out["out"]
         # "every RPM under its source package with its path, signing key and category; ...": the built mapping against the calls
         f = FORMATS[case["args"]["kind"]]
@@ -105,10 +226,24 @@ class C03(Prop):
         return None
 
     def nontrivial(self, case, real_out):
+        if case["op"] == "session":
+            return any(s["state"]["payload"] for s in real_out["steps"])
         return bool(real_out.get("state"))
 
     def stats(self, case, real_out, dist):
         a = case["args"]
+        if case["op"] == "session":
+            d = dist.setdefault("session:" + a["kind"], {"sessions": 0, "steps": 0, "calls": {}, "loads_into_nonempty": 0})
+            d["sessions"] += 1
+            prev = {}
+            for st, r in zip(a["steps"], real_out["steps"]):
+                c = st.get("call", "add")
+                d["steps"] += 1
+                d["calls"][c] = d["calls"].get(c, 0) + 1
+                if c.startswith("loads") and prev and "ok" in r["out"]:
+                    d["loads_into_nonempty"] += 1
+                prev = r["state"]["payload"]
+            return
         d = dist.setdefault(a["kind"], {"manifests": 0, "ops": 0, "max_ops": 0, "variants": 0, "label": 0, "bytes": 0})
         d["manifests"] += 1
         d["ops"] += len(a["ops"])
@@ -121,6 +256,16 @@ class C03(Prop):
 
     def shrink_candidates(self, case):
         out = []
+        if case["op"] == "session":
+            for i in range(len(case["args"]["steps"])):
+                c = copy.deepcopy(case)
+                del c["args"]["steps"][i]
+                out.append(c)
+            for i in range(len(case["args"]["other"]["ops"])):
+                c = copy.deepcopy(case)
+                del c["args"]["other"]["ops"][i]
+                out.append(c)
+            return out
         for i in range(len(case["args"]["ops"])):
             c = copy.deepcopy(case)
             del c["args"]["ops"][i]
